@@ -281,7 +281,7 @@ prop('C12', 'exploration',
      'rapidcheck-generated histories of appendFilter/removeFilter (also from inside filters and listeners), listener changes and dispatches, direct and queued, over 14 subjects: EventDispatcher by-value prototype, '
      'EventQueue with reference prototype (only the second argument rewritable), MixinFilter followed / preceded by a counting user mixin (once with a variadic template hook, once with an ordinary member hook taking non-const references), MixinFilter followed by a user mixin without any interceptor (dispatcher and queue; the same mixin in front of MixinFilter is known finding E15 and only replayed), HeterEventDispatcher and HeterEventQueue with MixinHeterFilter, a canContinueInvoking '
      'policy on void(Ev&), a canContinueInvoking policy and conditionalFunctor conditions taking movable arguments by value, and argumentAdapter down-casts (Derived& from Base&, shared_ptr<Derived> from shared_ptr<Base>); listeners plain, conditionalFunctor-wrapped and argumentAdapter-wrapped (arithmetic conversions); '
-     'during a direct dispatch filters with an odd id also overwrite the caller's own event object (the lvalue handed to dispatch), which must not re-route the dispatch; oracle = filter-chain model (insertion order, shared mutable arguments, first false stops filters and listeners of that dispatch only, removed filters never run) in lock-step with argument comparison at every filter, '
+     'during a direct dispatch filters with an odd id also overwrite the own event object of the caller (the lvalue handed to dispatch), which must not re-route the dispatch; oracle = filter-chain model (insertion order, shared mutable arguments, first false stops filters and listeners of that dispatch only, removed filters never run) in lock-step with argument comparison at every filter, '
      'condition and listener; non-trivial = (>=2 filters with a rewriting filter followed by a block) or a stop by canContinueInvoking or an adapter-wrapped listener',
      COMMON_ASSUME + ['subjects are the 14 rows of the configuration table', 'routing uses the event computed before the filters run (rewriting the key argument does not re-route): filters only use the exclude-event form',
                       'HeterEventQueue with MixinHeterFilter does not compile for queued dispatch (stored arguments are const): heterogeneous filters are exercised on direct dispatch only'],
